@@ -331,6 +331,9 @@ Definition opt_bscalar (t : sty) (o : option sval) : option bval := option_map (
 (* value conversion between scalar types of one kind keeps the payload *)
 Definition convert_same_kind (v : sval) : sval := v.
 
+(* reflect.Array *)
+Definition kind_array : N := 17.
+
 Definition try_convert (T : fty) (v : dval) : outcome (option bval) :=
   (* 1. fk.NewValue(value): value.(T) *)
   match T, v with
@@ -346,13 +349,15 @@ Definition try_convert (T : fty) (v : dval) : outcome (option bval) :=
     | Some b, _, _ => Ok (match T with FScalar t => opt_bscalar t (conv_f64 (s_kind t) b) | _ => None end)
     | _, Some z, _ => Ok (match T with FScalar t => opt_bscalar t (conv_i64 (s_kind t) z) | _ => None end)
     | _, _, DJ _ tbl =>
+        let via_json (id : N) : outcome (option bval) :=
+          match find (fun e => N.eqb (fst e) id) tbl with
+          | Some (_, Some form) => Ok (Some (BJson id form))
+          | Some (_, None) => Fail "internal"         (* json.Unmarshal error: ErrInternal *)
+          | None => Fail "internal"
+          end in
         match T with
-        | FJson id =>
-            match find (fun e => N.eqb (fst e) id) tbl with
-            | Some (_, Some form) => Ok (Some (BJson id form))
-            | Some (_, None) => Fail "internal"         (* json.Unmarshal error: ErrInternal *)
-            | None => Fail "internal"
-            end
+        | FJson id => via_json id
+        | FOther id kd _ => if N.eqb kd kind_array then via_json id else Ok None   (* arrays, as of the fix for F16 *)
         | _ => Ok None
         end
     | _, _, _ => Ok None
